@@ -173,6 +173,9 @@ func (c *c19ctx) familyE() {
 			{"json", "json", "yaml", "yaml"}, {"yaml", "yaml", "json", "json"}, {"json", "j", "yaml", "yml"}, {"yaml", "yml", "json", "json"},
 			{"yaml", "txt", "json", "json"}, {"json", "json", "yaml", "txt"}, {"props", "properties", "yaml", "yaml"}, {"csv", "csv", "tsv", "tsv"},
 			{"yaml", "yaml", "xml", "xml"}, {"json", "json", "props", "props"}, {"yaml", "yaml", "csv", "csv"}, {"xml", "xml", "json", "json"},
+			// a first input WITHOUT an extension (or stdin) is yaml whatever the later files are called
+			{"yaml", "", "json", "json"}, {"yaml", "", "xml", "xml"}, {"yaml", "", "props", "properties"}, {"yaml", "", "csv", "csv"},
+			{"yaml", "-", "json", "json"}, {"yaml", "-", "xml", "xml"}, {"yaml", "", "lua", "lua"}, {"yaml", "-", "tsv", "tsv"},
 		}
 		p := pairs[c.r.IntN(len(pairs))]
 		t1, _ := c.sample(p.f1)
@@ -182,11 +185,22 @@ func (c *c19ctx) familyE() {
 			t2, _ = c.sample("json")
 		}
 		n1, n2 := "first."+p.e1, "second."+p.e2
-		c.write(n1, t1)
+		var stdin []byte
+		switch p.e1 {
+		case "":
+			n1 = []string{"first", "settings", "dir.json/first"}[c.r.IntN(3)]
+			c.tag("e2-first-without-extension")
+		case "-":
+			n1, stdin = "-", []byte(t1)
+			c.tag("e2-first-is-stdin")
+		}
+		if n1 != "-" {
+			c.write(n1, t1)
+		}
 		c.write(n2, t2)
 		c.tag("e2", "fmt:"+p.f1+"+"+p.f2)
-		auto := c.yq(nil, expr, n1, n2)
-		expl := c.yq(nil, "-p="+p.f1, "-o="+p.f1, expr, n1, n2)
+		auto := c.yq(stdin, expr, n1, n2)
+		expl := c.yq(stdin, "-p="+p.f1, "-o="+p.f1, expr, n1, n2)
 		if auto.TimedOut || expl.TimedOut {
 			return
 		}
@@ -201,7 +215,7 @@ func (c *c19ctx) familyE() {
 			return
 		}
 		// the other candidate (last file decides) must be distinguishable, otherwise the case shows nothing
-		other := c.yq(nil, "-p="+p.f2, "-o="+p.f2, expr, n1, n2)
+		other := c.yq(stdin, "-p="+p.f2, "-o="+p.f2, expr, n1, n2)
 		if !other.TimedOut && c19SameRun(auto, other) == "" {
 			c.res.Nontrivial = false
 			c.tag("e2_indistinguishable")
